@@ -64,18 +64,24 @@ FUNCTIONS = [
     "autoarray.inversion.inversion.imaging.inversion_imaging_util.curvature_matrix_off_diags_via_w_tilde_curvature_preload_imaging_from",
     "autoarray.inversion.inversion.imaging.inversion_imaging_util.curvature_matrix_off_diags_via_mapper_and_linear_func_curvature_vector_from",
 ]
-EXPLORER_OPTS = {"timeout_ms": 20000, "max_paths": 2000, "max_decisions": 4000}
+EXPLORER_OPTS = {"timeout_ms": 6000, "max_paths": 2000, "max_decisions": 4000}
 BUDGET_S = {"quick": 900, "thorough": 2300}
 
 ADD_TO_DIAG = 0.25          # dyadic, so that the exact-rational run and float64 agree bit for bit
 SLOTS = ("w_tilde", "curvature_matrix", "regularization_matrix", "log_det_regularization_matrix_term", "operated_mapping_matrix")
 SHORT = {"w_tilde": "wt", "curvature_matrix": "cm", "regularization_matrix": "rm",
          "log_det_regularization_matrix_term": "ld", "operated_mapping_matrix": "om"}
+EXT_SLOTS = ("data_vector_mapper", "curvature_matrix_mapper_diag", "mapper_operated_mapping_matrix_dict",
+             "linear_func_operated_mapping_matrix_dict", "data_linear_func_matrix_dict")
+SHORT.update({"data_vector_mapper": "dvm", "curvature_matrix_mapper_diag": "cmd", "mapper_operated_mapping_matrix_dict": "momd",
+              "linear_func_operated_mapping_matrix_dict": "lfomd", "data_linear_func_matrix_dict": "dlfmd"})
 OBSERVED = ("data_vector", "curvature_matrix", "regularization_matrix", "curvature_reg_matrix", "reconstruction",
             "mapped_reconstructed_data", "regularization_term", "log_det_curvature_reg_matrix_term",
             "log_det_regularization_matrix_term", "curvature_matrix_reread")
-OBSERVED_NOISE = ("data_vector", "curvature_matrix", "regularization_matrix", "curvature_reg_matrix",
-                  "log_det_regularization_matrix_term", "curvature_matrix_reread")
+OBSERVED_NOISE = ("data_vector", "curvature_matrix", "regularization_matrix", "curvature_reg_matrix", "reconstruction",
+                  "mapped_reconstructed_data", "regularization_term", "log_det_regularization_matrix_term",
+                  "curvature_matrix_reread")
+VIA_UF = ("reconstruction", "mapped_reconstructed_data", "regularization_term")    # not comparable with a native run under a model
 
 
 # ---------------------------------------------------------------------------- library boundaries (stubs)
@@ -90,7 +96,16 @@ class _Linalg:
     def solve(self, a, b):
         a, b = shim.normalise(a), shim.normalise(b)
         if shim.has_sym(a):
-            raise V.Unsupported("np.linalg.solve with a symbolic matrix")
+            # symbolic matrix (noise-symbolic configuration): x_i = solve_i(entries of a, entries of b), an uninterpreted
+            # function per component - all that is assumed is that the routine is a function of its arguments
+            a, b = np.asarray(shim.unwrap(a), dtype=object), np.asarray(shim.unwrap(b), dtype=object)
+            if b.ndim != 1:
+                raise V.Unsupported("np.linalg.solve with a symbolic matrix and a 2D right-hand side")
+            args = [V.to_real_term(e) for e in a.reshape(-1)] + [V.to_real_term(e) for e in b.reshape(-1)]
+            out = np.empty(b.shape[0], dtype=object)
+            for i in range(b.shape[0]):
+                out[i] = V.SymReal(V.ctx().uf("linalg_solve_%d_of_%d" % (i, b.shape[0]), len(args))(*args))
+            return out
         if not shim.has_sym(b):
             return np.linalg.solve(a, b)
         a = np.asarray(a, dtype=float)
@@ -305,7 +320,7 @@ def _fresh_inversion(g, data, noise, mix, wt, preloads=_OMIT):
     return aa.Inversion(dataset=ds, linear_obj_list=objs, settings=_settings(wt), preloads=preloads)
 
 
-def _donor_slots(g, data, noise, mix, wt):
+def _donor_slots(g, data, noise, mix, wt, ext=False):
     """slot values 'computed from an identical dataset and linear objects': taken from a separate, identical inversion"""
     donor = _fresh_inversion(g, data, noise, mix, wt)
     vals = {}
@@ -314,6 +329,14 @@ def _donor_slots(g, data, noise, mix, wt):
     vals["log_det_regularization_matrix_term"] = donor.log_det_regularization_matrix_term
     vals["operated_mapping_matrix"] = _val(donor.operated_mapping_matrix)
     vals["w_tilde"] = donor.dataset.w_tilde
+    if ext:
+        # the further public slots, filled the way Preloads.set_curvature_matrix / set_linear_func_inversion_dicts do
+        vals["data_vector_mapper"] = _val(donor._data_vector_mapper)
+        # (the mapping formalism cannot compute this one for [mapper, function list]: IndexError, see notes -> slot left empty)
+        vals["curvature_matrix_mapper_diag"] = hx.attempt(lambda: _val(donor._curvature_matrix_mapper_diag))
+        vals["mapper_operated_mapping_matrix_dict"] = donor.mapper_operated_mapping_matrix_dict
+        vals["linear_func_operated_mapping_matrix_dict"] = donor.linear_func_operated_mapping_matrix_dict
+        vals["data_linear_func_matrix_dict"] = donor.data_linear_func_matrix_dict
     return vals
 
 
@@ -322,6 +345,10 @@ def _preloads(vals, subset, use_w_tilde=None):
     kw = {}
     for s in subset:
         v = vals[s]
+        if isinstance(v, hx.Raised):
+            continue
+        if isinstance(v, dict):
+            v = {key: _val(a) for key, a in v.items()}
         kw[s] = np.array(v, copy=True) if isinstance(v, np.ndarray) else (copy.deepcopy(v) if s == "w_tilde" else v)
     return aa.Preloads(use_w_tilde=use_w_tilde, **kw)
 
@@ -348,13 +375,13 @@ def _subset_tag(subset):
 
 # ---------------------------------------------------------------------------- bodies
 
-def body_seq(inp, geom, mix, wt, subsets, k, noise_sym=False, check=False):
+def body_seq(inp, geom, mix, wt, subsets, k, noise_sym=False, check=False, donor_wt=None):
     """k successive inversions sharing one Preloads(<subset>) versus one inversion with preloads=None"""
     with _check_reconstruction(check):
-        return _body_seq(inp, geom, mix, wt, subsets, k, noise_sym)
+        return _body_seq(inp, geom, mix, wt, subsets, k, noise_sym, donor_wt)
 
 
-def _body_seq(inp, geom, mix, wt, subsets, k, noise_sym):
+def _body_seq(inp, geom, mix, wt, subsets, k, noise_sym, donor_wt=None):
     import autoarray as aa
     g = _geom(geom)
     data = np.asarray(inp["d"]).reshape(-1)
@@ -363,7 +390,7 @@ def _body_seq(inp, geom, mix, wt, subsets, k, noise_sym):
     A, E = {}, {}
     ref = {}
     _observe(_fresh_inversion(g, data, noise, mix, wt), names, ref, "")
-    vals = _donor_slots(g, data, noise, mix, wt)
+    vals = _donor_slots(g, data, noise, mix, wt if donor_wt is None else donor_wt, ext=any(s_ in EXT_SLOTS for sub in subsets for s_ in sub))
     ds = _dataset(g, data, noise)
     objs = _linear_objs(g, ds.mask, mix)
     for subset in subsets:
@@ -413,6 +440,16 @@ def _body_factory(inp, geom, mix):
                 _observe(inv, OBSERVED, A, pre)
                 for nme in OBSERVED:
                     E[pre + nme] = ref[nme]
+    # "versus preloads=None": the explicit spelling of 'nothing preloaded' must behave like omitting the argument
+    for s_wt in (True, False):
+        pre = "settings=%s,preloads=None|" % s_wt
+        inv = hx.attempt(lambda: _fresh_inversion(g, data, noise, mix, s_wt, preloads=None))
+        if isinstance(inv, hx.Raised):
+            A[pre + "construct"], E[pre + "construct"] = inv, "constructed"
+            continue
+        _observe(inv, OBSERVED, A, pre)
+        for nme in OBSERVED:
+            E[pre + nme] = ref[nme]
     return A, E
 
 
@@ -439,15 +476,25 @@ def _inputs(ctx, g, noise_sym, box=None):
     return inputs
 
 
-def case_seq(ctx, geom, mix, wt, subsets, k, noise_sym=False, check=False):
+def case_seq(ctx, geom, mix, wt, subsets, k, noise_sym=False, check=False, donor_wt=None):
     g = _geom(geom)
     inputs = _inputs(ctx, g, noise_sym, box=16 if check else None)
     ctx.set_case(geom=geom, mix=mix, use_w_tilde=wt, subsets=[_subset_tag(tuple(s)) for s in subsets], k=k)
-    kw = {"geom": geom, "mix": mix, "wt": wt, "subsets": subsets, "k": k, "noise_sym": noise_sym, "check": check}
+    kw = {"geom": geom, "mix": mix, "wt": wt, "subsets": subsets, "k": k, "noise_sym": noise_sym, "check": check, "donor_wt": donor_wt}
     ctx.set_inputs(**inputs)
     A, E = body_seq(inputs, **kw)
-    hx.check_all(ctx, A, E, tol=None if noise_sym else _tol(E, 1e-12))
-    hx.validate(ctx, body_seq, inputs, kw, A, every=1)
+    known = None
+    if KNOWN_DVM in os.environ.get("VERIF_KNOWN", "").split(",") and not wt and "F" in mix and "M" in mix:
+        # recorded defect: the mapping formalism returns Preloads.data_vector_mapper as the whole data vector
+        known = {key: {KNOWN_DVM: z3.BoolVal(True)} for key in E
+                 if "dvm" in key.split("|")[0].split("+") and key.rsplit("|", 1)[-1] in DVM_AFFECTED}
+        for key in list(known):
+            # s^T H s of an already-recorded wrong reconstruction: a quadratic 'differs somewhere' query that z3 leaves
+            # unknown and that adds nothing to the finding -> not checked inside the recorded configurations
+            if key.endswith("|regularization_term"):
+                del known[key], E[key]
+    hx.check_all(ctx, A, E, tol=None if noise_sym else _tol(E, 1e-12), known=known)
+    hx.validate(ctx, body_seq, inputs, kw, {k_: v for k_, v in A.items() if not (noise_sym and k_.rsplit("|", 1)[-1] in VIA_UF)}, every=1)
 
 
 def case_factory(ctx, geom, mix, check=False):
@@ -457,9 +504,20 @@ def case_factory(ctx, geom, mix, check=False):
     kw = {"geom": geom, "mix": mix, "check": check}
     ctx.set_inputs(**inputs)
     A, E = body_factory(inputs, **kw)
-    hx.check_all(ctx, A, E, tol=_tol(E, 1e-9))
+    known = None
+    if "factory-preloads-none" in os.environ.get("VERIF_KNOWN", "").split(","):
+        known = {k: {"factory-preloads-none": z3.BoolVal(True)} for k in E if "preloads=None|" in k}
+    hx.check_all(ctx, A, E, tol=_tol(E, 1e-9), known=known)
     hx.validate(ctx, body_factory, inputs, kw, A, every=1)
 
+
+KNOWN_DVM = "mapping-data-vector-mapper"
+DVM_AFFECTED = ("data_vector", "reconstruction", "mapped_reconstructed_data", "regularization_term")
+G1 = ["curvature_matrix_mapper_diag", "data_vector_mapper", "mapper_operated_mapping_matrix_dict"]     # Preloads.set_curvature_matrix
+G2 = ["linear_func_operated_mapping_matrix_dict", "data_linear_func_matrix_dict"]                      # Preloads.set_linear_func_inversion_dicts
+EXT_QUICK = [[s_] for s_ in EXT_SLOTS] + [G1, G2, list(EXT_SLOTS)]
+NOISE_SUBSETS = [["curvature_matrix"], ["w_tilde"], ["operated_mapping_matrix"], ["regularization_matrix", "log_det_regularization_matrix_term"],
+                 ["w_tilde", "curvature_matrix", "operated_mapping_matrix"], list(SLOTS)]
 
 BODIES = {"case_seq": body_seq, "case_factory": body_factory}
 
@@ -476,21 +534,41 @@ def cases(tier):
     out = []
     subs = _all_subsets()
     chunk = 8
-    if tier == "quick":
+    quick = tier == "quick"
+    if quick:
         plan = [("sq3", ("M", "FM", "MF", "MM"), 2)]
     else:
         plan = [("sq3", ("M", "FM", "MF", "MM", "F", "FMM"), 3), ("plus", ("M", "FM", "MF", "MM", "F"), 3)]
     for geom, mixes, k in plan:
         for mix in mixes:
             for wt in (True, False):
+                # (1) all 2^5 subsets of the five slots named by the property, k successive inversions per Preloads object
                 for i in range(0, len(subs), chunk):
                     out.append(("case_seq", {"geom": geom, "mix": mix, "wt": wt, "subsets": subs[i:i + chunk], "k": k}))
-                # the degenerate-solution test (config check_reconstruction, a fork on the reconstruction) switched on
+                # (2) the degenerate-solution test (config check_reconstruction: a fork on the reconstruction) switched on
                 out.append(("case_seq", {"geom": geom, "mix": mix, "wt": wt, "subsets": [["curvature_matrix"], list(SLOTS)],
                                          "k": 2, "check": True}))
+                # (3) the further public slots of Preloads
+                if "M" in mix:
+                    if quick:
+                        out.append(("case_seq", {"geom": geom, "mix": mix, "wt": wt, "subsets": EXT_QUICK, "k": k}))
+                    else:
+                        ext = [list(c) for r in range(1, 6) for c in itertools.combinations(EXT_SLOTS, r)] + [list(SLOTS) + list(EXT_SLOTS)]
+                        for i in range(0, len(ext), chunk):
+                            out.append(("case_seq", {"geom": geom, "mix": mix, "wt": wt, "subsets": ext[i:i + chunk], "k": k}))
+                # (4) data AND noise symbolic
+                if quick or "M" in mix:
+                    out.append(("case_seq", {"geom": geom, "mix": mix, "wt": wt, "subsets": NOISE_SUBSETS, "k": 2, "noise_sym": True}))
+                # (5) slot values taken from an identical inversion of the OTHER formalism
+                if not quick and mix in ("FM", "MF", "MM"):
+                    for i in range(0, len(subs), 16):
+                        out.append(("case_seq", {"geom": geom, "mix": mix, "wt": wt, "subsets": subs[i:i + 16], "k": 2, "donor_wt": not wt}))
+            # (6) the factory's choice of formalism
             out.append(("case_factory", {"geom": geom, "mix": mix}))
+            if not quick and mix in ("M", "FM"):
+                out.append(("case_factory", {"geom": geom, "mix": mix, "check": True}))
     return out
 
 
 def replay(cand):
-    return hx.replay_body(BODIES[cand["case_fn"]], cand, key=cand["obligation"] if False else None)
+    return hx.replay_body(BODIES[cand["case_fn"]], cand)
